@@ -66,6 +66,9 @@ type Witness struct {
 	Path     string      `json:"path"`
 	Native   string      `json:"native,omitempty"`
 	Agrees   bool        `json:"agrees"`
+	// UFDependent: the path condition constrains an uninterpreted function (checksum stub); such a
+	// witness cannot be replayed natively and is not counted as validated
+	UFDependent bool `json:"uf_dependent,omitempty"`
 }
 
 type HarnessResult struct {
@@ -417,7 +420,12 @@ func (w *worker) runPath(res *HarnessResult) {
 				reached = append(reached, k)
 			}
 			sort.Strings(reached)
-			res.Witnesses = append(res.Witnesses, &Witness{Harness: res.Name, Tape: tape, Observes: obs, Reached: reached, Path: in.decisionString()})
+			ufs := map[string]bool{}
+			seen := map[*Term]bool{}
+			for _, c := range in.pc {
+				collectUFs(c, seen, ufs)
+			}
+			res.Witnesses = append(res.Witnesses, &Witness{Harness: res.Name, Tape: tape, Observes: obs, Reached: reached, Path: in.decisionString(), UFDependent: len(ufs) > 0})
 		}
 	}
 }
